@@ -28,6 +28,7 @@ path to here"):
     with                                      -> body walked in place
     return / raise / continue / break         -> do not fall through
     nested def / lambda / class               -> not walked; a site or Y inside one is REFUSED (reported as an error)
+`after="passes:<test>"`: Y is a guard statement `if <test>: <body that cannot fall through>` (no else); the fact holds behind it.
 `mode="none_after"` turns the declaration around (a MAY-analysis): the obligation at a site is that NO path reaches it after
 a statement containing Y may have been executed ("every pull from the frame buffer happens before the stream lookup that
 can abort the handler"); joins are unions, a loop body is walked again from the joined fact, an exception handler is
@@ -52,6 +53,8 @@ def _src_root():
 
 
 def _is_site(node, kind, name):
+    if kind == "passes":
+        return False  # only meaningful as `after`: handled on `if` statements in Walk.stmt
     if kind == "writes":
         if isinstance(node, (ast.Assign, ast.AugAssign, ast.AnnAssign)):
             tgts = node.targets if isinstance(node, ast.Assign) else [node.target]
@@ -135,6 +138,15 @@ class Walk:
             a0 = a
             for h in _header_exprs(st):
                 a0 = self.simple(ast.Expr(value=h, lineno=st.lineno), a0)
+            if self.after[0] == "passes" and not self.may and not st.orelse and ast.unparse(st.test) == self.after[1]:
+                # `after="passes:<test>"`: a guard `if <test>: <body that raises / returns>`; control continues behind it only when
+                # the test was false - the fact holds from there on
+                self.guards_seen = getattr(self, "guards_seen", 0) + 1
+                _a1, f1 = self.block(st.body, a0)
+                if f1:
+                    self.errors.append("line %d: the guard `if %s:` can fall through" % (st.lineno, self.after[1]))
+                    return a0, True
+                return True, True
             self.tests.append(ast.unparse(st.test))
             a1, f1 = self.block(st.body, a0)
             self.tests.pop()
@@ -193,8 +205,10 @@ class Walk:
 
 def _parse(spec):
     k, _, n = spec.partition(":")
-    if k not in ("writes", "calls") or not n:
+    if k not in ("writes", "calls", "passes") or not n:
         raise ValueError("bad site spec %r" % spec)
+    if k == "passes":
+        n = ast.unparse(ast.parse(n, mode="eval").body)
     return (k, n)
 
 
@@ -256,7 +270,10 @@ def build(qual, reg):
         got = counts.get(_parse(s), 0)
         if got != n:
             r.errors.append("expected %d site(s) %s in %s, found %d (vacuity guard: the site moved out of the function or was renamed)" % (n, s, fq, got))
-    if not any(_is_site(x, after[0], after[1]) for x in ast.walk(node) if isinstance(x, ast.stmt)):
+    if after[0] == "passes":
+        if not getattr(w, "guards_seen", 0):
+            r.errors.append("no guard `if %s:` in %s" % (after[1], fq))
+    elif not any(_is_site(x, after[0], after[1]) for x in ast.walk(node) if isinstance(x, ast.stmt)):
         r.errors.append("no %s:%s in %s" % (after[0], after[1], fq))
     r.outcomes = {"sites": len(r.obligations)}
     return r
